@@ -63,10 +63,20 @@ func NumCases(kind int, base []byte) uint64 {
 	if n >= 8 {
 		w = n - 7
 	}
-	return uint64(n + byteSubs*n + len(windowVals)*w + w + 1)
+	return uint64(n + byteSubs*n + len(windowVals)*w + len(pads)*w + 1)
 }
 
-var numberVals = []string{"-1", "63", "64", "65", "255", "256", "65536", "4294967296", "9223372036854775808", "18446744073709551615", "18446744073709551616", "99999999999999999999999999999999999999999", "1e9"}
+// pads: the "padded count" families replace everything after an 8-byte window by `bytes` bytes of 0xFF and write
+// `count` into the window: {2^17, 2^17 bytes} is a length prefix that claims exactly as many elements as bytes follow
+// (the largest count a "count <= bytes left" check lets through); {64, 4 KiB} and {65, 4 KiB} are small counts that ARE
+// backed by enough bytes for 32-byte elements - a list (a Merkle proof) of exactly / just beyond 64 entries followed by
+// garbage that fails later.
+var pads = []struct {
+	count uint64
+	bytes int
+}{{1 << 17, 1 << 17}, {64, 4096}, {65, 4096}}
+
+var numberVals = []string{"1e100000", "1e999999", "-1", "63", "64", "65", "255", "256", "65536", "4294967296", "9223372036854775808", "18446744073709551615", "18446744073709551616", "99999999999999999999999999999999999999999", "1e9"}
 
 var runCache struct {
 	p    *byte
@@ -174,13 +184,18 @@ func Variation(kind int, base []byte, idx uint64, scratch []byte) (in []byte, fa
 		in[pos] = v
 		return in, "byte-sub", fmt.Sprintf("byte %d: %#02x -> %#02x", pos, b, v)
 	case n >= 8 && idx >= n+uint64(byteSubs)*n+uint64(len(windowVals))*(n-7):
-		off := idx - n - uint64(byteSubs)*n - uint64(len(windowVals))*(n-7)
+		j := idx - n - uint64(byteSubs)*n - uint64(len(windowVals))*(n-7)
+		pd, off := pads[j/(n-7)], j%(n-7)
 		in = append(scratch[:0], base[:off]...)
-		in = binary.LittleEndian.AppendUint64(in, padLen)
-		for i := 0; i < padLen; i++ {
+		in = binary.LittleEndian.AppendUint64(in, pd.count)
+		for i := 0; i < pd.bytes; i++ {
 			in = append(in, 0xFF)
 		}
-		return in, "padded-count", fmt.Sprintf("bytes %d..%d := little-endian %d, followed by %d bytes of 0xFF instead of the rest", off, off+7, padLen, padLen)
+		fam := "padded-count"
+		if pd.count < 1<<17 {
+			fam = fmt.Sprintf("padded-count-%d", pd.count)
+		}
+		return in, fam, fmt.Sprintf("bytes %d..%d := little-endian %d, followed by %d bytes of 0xFF instead of the rest", off, off+7, pd.count, pd.bytes)
 	default:
 		j := idx - n - uint64(byteSubs)*n
 		off, k := j/uint64(len(windowVals)), j%uint64(len(windowVals))
